@@ -282,9 +282,10 @@ func (m *mock) GetBlockHeaderByHeight(h uint32) (*wire.BlockHeader, error) {
 func (m *mock) GetBlockHeader(hash *chainhash.Hash) (*wire.BlockHeader, uint32, error) {
 	m.mu.Lock()
 	defer m.mu.Unlock()
+	// like headerfs: the hash index only knows the best chain (a rollback deletes the entries of the blocks it removes)
 	b, ok := m.tree.byHash[*hash]
-	if !ok {
-		return nil, 0, errors.New("header not found")
+	if !ok || b.height >= len(m.chain) || m.chain[b.height] != b {
+		return nil, 0, errors.New("block header not found")
 	}
 	hdr := b.msg.Header
 	return &hdr, uint32(b.height), nil
@@ -476,6 +477,24 @@ func (h *H) settle() string {
 	// catch-up arm: the gate was just opened
 	select {
 	case <-h.m.gateArrive:
+		// It may have subscribed, taken a waiting Update() in the current arm, rewound and come back to the gate
+		// before we looked (both channels ready: select picks either).
+		select {
+		case <-h.m.subCh:
+			h.sub, h.pending = nil, nil
+			if h.updDone != nil {
+				select {
+				case err := <-h.updDone:
+					h.updAfterSub = err == nil
+				case <-time.After(watchdog):
+					h.record("HANG")
+					h.setMode("dead")
+					return h.mode
+				}
+				h.updDone = nil
+			}
+		default:
+		}
 	case ch := <-h.m.subCh:
 		h.sub = ch
 		h.setMode("current")
@@ -1048,7 +1067,8 @@ func (h *H) random(c caseCfg) {
 var tickBudget = 40
 
 // variant: also generate histories in which the rescan enters the catch-up arm with unread disconnects
-var variant = os.Getenv("VERIF_C09_VARIANT") == "1"
+// (shape=reorg-unread-at-catchup, recorded); VERIF_C09_VARIANT=0 switches them off
+var variant = os.Getenv("VERIF_C09_VARIANT") != "0"
 
 func randFails(rng *rand.Rand) []bool {
 	n := 1 + rng.Intn(3)
@@ -1096,7 +1116,17 @@ func (h *H) randReorg(c caseCfg, best int) {
 		}
 	}
 	fork := h.m.chain[best-d]
+	wasCurrent := h.mode == "current"
 	h.opReorg(d, h.branch(fork, n))
+	// a rewind below the fork point right behind a >=2-deep reorganisation whose notifications are all unread
+	if wasCurrent && h.mode == "current" && d >= 2 && fork.height >= 2 && rng.Intn(3) == 0 {
+		h.t.Hit("op.update.rewind-behind-deep-reorg")
+		u := upd{rewind: 1 + rng.Intn(fork.height-1)}
+		if rng.Intn(2) == 0 {
+			u.addrs = []int{1 + rng.Intn(4)}
+		}
+		h.opUpdate(u)
+	}
 }
 
 func (h *H) randUpdate(c caseCfg) {
@@ -1129,9 +1159,9 @@ func (h *H) randUpdate(c caseCfg) {
 	h.opUpdate(u)
 }
 
-// unreadDisc: Disconnected notifications the rescan has not read yet.  Entering the catch-up arm now (rewind, block
-// fetch failure, missing filter header) would strand it on a block that left the best chain: the same missing
-// parent check as F13 with a different trigger; generated only with VERIF_C09_VARIANT=1 (see the report).
+// unreadDisc: Disconnected notifications the rescan has not read yet.  Entering the catch-up arm now (block fetch
+// failure, missing filter header) strands it on a block that left the best chain: shape=reorg-unread-at-catchup (recorded).
+// With VERIF_C09_VARIANT=0 the generator stays clear of that region.
 func (h *H) unreadDisc() bool {
 	for _, p := range h.pending {
 		if !p.conn {
@@ -1255,15 +1285,65 @@ func probeMatch(h *H) {
 	}
 }
 
-// probeStrand (only with VERIF_C09_VARIANT=1): a rewind overtakes unread disconnects.
-func probeStrand(h *H) {
+// probeUnread: a block fetch failure drops the rescan into the catch-up arm while the disconnects of a three-deep
+// reorganisation are still unread in its subscription; they are lost and the catch-up arm goes on by height.
+func probeUnread(h *H) {
+	for h.mode == "catchup" {
+		h.opStep()
+	}
+	h.opGrow(h.tree.mkBlockDecl(h, h.tip(), true)) // pays watched script 1: the block must be fetched
+	best := len(h.m.chain) - 1
+	h.opReorg(3, h.branch(h.m.chain[best-3], 4))
+	h.opFail("failb", []bool{true})
+	h.opNtfn() // the queued Connected: parent check passes, block fetch fails -> not current any more
+	for k := 0; k < 6 && h.mode == "catchup"; k++ {
+		h.opStep()
+	}
+}
+
+// probeUnreadFilterHeader: same entry through a missing filter header (the new branch is still shorter).
+func probeUnreadFilterHeader(h *H) {
+	for h.mode == "catchup" {
+		h.opStep()
+	}
+	h.opGrow(h.newBlockOn(h.tip()))
+	best := len(h.m.chain) - 1
+	fork := h.m.chain[best-3]
+	h.opReorg(3, h.branch(fork, 1))
+	h.opNtfn() // Connected above the (momentarily lower) best height: GetFilterHeaderByHeight fails
+	h.opGrow(h.newBlockOn(h.tip()))
+	h.opGrow(h.newBlockOn(h.tip()))
+	h.opGrow(h.newBlockOn(h.tip()))
+	for k := 0; k < 6 && h.mode == "catchup"; k++ {
+		h.opStep()
+	}
+}
+
+// probeRewindUnread: an Update(Rewind) below the fork point overtakes the unread disconnects of a two-deep
+// reorganisation.  The rewind follows the rescan's own PrevBlock: one disconnect of its current block, then the parent
+// is no longer in the header store and the rescan ends.  (A rewind that stepped back BY HEIGHT would disconnect blocks of
+// the other branch that were never connected.)
+func probeRewindUnread(h *H) {
 	for h.mode == "catchup" {
 		h.opStep()
 	}
 	best := len(h.m.chain) - 1
 	h.opReorg(2, h.branch(h.m.chain[best-2], 2))
-	h.opUpdate(upd{addrs: []int{2}, rewind: best - 1})
-	for k := 0; k < 4 && h.mode == "catchup"; k++ {
+	h.opUpdate(upd{addrs: []int{2}, rewind: best - 3})
+	for k := 0; k < 6 && h.mode == "catchup"; k++ {
+		h.opStep()
+	}
+}
+
+// probeRewindUnreadShallow: only the current block was reorganised out; the rewind lands on the common chain.
+func probeRewindUnreadShallow(h *H) {
+	for h.mode == "catchup" {
+		h.opStep()
+	}
+	best := len(h.m.chain) - 1
+	h.opReorg(1, h.branch(h.m.chain[best-1], 2))
+	h.opUpdate(upd{addrs: []int{2}, rewind: best - 3})
+	for k := 0; k < 8 && h.mode == "catchup"; k++ {
 		h.opStep()
 	}
 }
@@ -1288,8 +1368,11 @@ func Run(t *tr.W, thorough bool) {
 	runCase(t, rng, std("probe-current-reorg", probeCurrentReorg), &ticks)
 	runCase(t, rng, std("probe-retry", probeRetry), &ticks)
 	runCase(t, rng, std("probe-match", probeMatch), &ticks)
+	runCase(t, rng, std("probe-rewind-unread", probeRewindUnread), &ticks)
+	runCase(t, rng, std("probe-rewind-unread-shallow", probeRewindUnreadShallow), &ticks)
 	if variant {
-		runCase(t, rng, std("probe-strand", probeStrand), &ticks)
+		runCase(t, rng, std("probe-unread", probeUnread), &ticks)
+		runCase(t, rng, std("probe-unread-filter-header", probeUnreadFilterHeader), &ticks)
 	}
 	for i := 0; i < ncases; i++ {
 		c := caseCfg{name: "rand", nops: 18 + rng.Intn(25)}
